@@ -479,6 +479,8 @@ M = {
     "subQueueBytes": r"queue\.bytes-=",
     "ifCommitWake": ("if", r"queue\.bytes<=MAX_COMMIT_QUEUE_BYTES"),
     "notifyAllQueueFull": r"self\.commit_queue_full_cv\.notify_all\(\)",
+    "tryWriteTree": r"tree\.try_write\(\)",
+    "releaseTreeLocks": r"drop\(tree_locks\)",
     "deferCommit": r"self\.defer_commit\(",
     "beginRecord": r"self\.log\.begin_record\(\)",
     "writePlan": r"\.write_plan\(",
@@ -686,9 +688,9 @@ FUNCS = [
      [("ifMightWait", "?"), ("lockLogQueue", "+"), ("ifLogQueueFull", "?"), ("whileLogQueueFull", "?"),
       ("waitLogQueue", "1"),
       ("lockQueue", "+"), ("popQueue", "1"), ("subQueueBytes", "1"), ("ifCommitWake", "?"),
-      ("notifyAllQueueFull", "1"), ("deferCommit", "1"),
+      ("notifyAllQueueFull", "1"), ("tryWriteTree", "1"), ("deferCommit", "1"),
       ("beginRecord", "1"), ("writePlan", "+"), ("completePlan", "1"), ("endRecord", "1"),
-      ("addLoggedBytes", "1"), ("signalFlushWorker", "1"), ("lockOverlayWrite", "1"),
+      ("addLoggedBytes", "1"), ("signalFlushWorker", "1"), ("releaseTreeLocks", "1"), ("lockOverlayWrite", "1"),
       ("cleanOverlay", "+"), ("startReindex", "1")], [("ifLogQueueFull", "whileLogQueueFull")],
      {"stmts": ["subQueueBytes", "addLoggedBytes"]}),
     ("processReindex", "src/db.rs", "DbInner", "process_reindex",
